@@ -68,8 +68,10 @@ CLAIMED = {
          "return happens only when the step names nothing, existing input/output entries are never replaced, lazily created ones are linked to the rpc "
          "entry, the rest of the tree is untouched; getPrefix, module and FindModuleByPrefix (own/empty prefix => own module, unknown prefix => nil) "
          "against functional contracts. Assumed: processed-tree shape (acyclic parents, roots made from modules), AST import statements carry prefixes, "
-         "loading an imported module leaves existing trees alone. Not decided: the path<->node round trip as one theorem (induction over C04's tree "
-         "invariant, on paper), the result of ToEntry for a foreign module."),
+         "loading an imported module leaves existing trees alone, ToEntry returns one entry per module. Where the walk starts is proved as loop-entry "
+         "invariants: a relative path at the start node, an absolute path at the root, a prefixed absolute path at the entry of the module that wrote the "
+         "start node (also for a node grafted into another module's tree); dup re-parents copies (the '..' clause). Not decided: the path<->node round "
+         "trip as one theorem (induction over C04's tree invariant, on paper), the submodule case of the start invariant."),
    ref="8 (C17)"),
  "C04": dict(
    text=("Deductive proof, with loop invariants over nondeterministic map iteration, of the tree-building operations on the real functions: add (files the "
@@ -77,48 +79,63 @@ CLAIMED = {
          "names and kinds; list attributes and rpc input/output copied; nothing that existed is written; terminates), merge (never overwrites, grafted "
          "children fresh and re-parented with the given namespace/prefix, collisions reported, the source tree -- slice backing arrays included -- "
          "untouched), FixChoice's wrapping loop (every child of a choice becomes a case, fresh case entries correctly linked), importErrors, newError, "
-         "errorf/addError; Find's lazily created input/output are linked into the tree. Bounded (labelled): a tree-shape walker over every entry of 10 "
-         "module sets in all load orders, incl. late-arising errors. Not decided: that ToEntry (reflection) establishes the shape, checkErrors/GetErrors "
+         "errorf/addError; Find's lazily created input/output are linked into the tree. Bounded (labelled): a tree-shape walker over every entry of 19 "
+         "module sets in all load orders, incl. late-arising errors, augments written before their target exists, augments into lazily created "
+         "input/output and into second expansions of a grouping. Not decided: that ToEntry (reflection) establishes the shape, checkErrors/GetErrors "
          "as contracts (callback), the recursion of FixChoice."),
    ref="8 (C04)"),
  "C19": dict(
    text=("This family is silent on schedules; what is decided, per function and for all inputs, is the discipline that makes the property true: ghost "
          "lock state for sync.Mutex/RWMutex (no self-deadlock, unlock only what is held, every function returns with the locks as it found them), "
          "guarded-field obligations (byNS under nsMu, entryCache under entryCacheMu with the write lock for writes, the typedef dictionary under mu, writes "
-         "to the identity dictionary under its mu) at every access in every function that touches them, `modifies nothing` frames on ReadOnly and "
-         "Namespace, and a go/ssa scan that the package-level tables are written by package initialisation only. Bounded (labelled): a race-detector "
+         "to the identity dictionary under its mu) at every access in every function that touches them, read-only frames on ReadOnly, Namespace, Path, "
+         "DefaultValues, SingleDefaultValue, GetWhenXPath, Modules (a memo added to one of them fails a frame obligation), and a go/ssa scan that every "
+         "package-level variable of the packages is written by package initialisation only. Bounded (labelled): a race-detector "
          "run of concurrent readers and independent pipelines compared with the sequential result. Not decided: interleavings themselves; reads of the "
          "identity dictionary outside its lock rely on phase separation (after Process), which is not checked."),
    ref="8 (C19)"),
  "C01": dict(
-   text=("Deductive no-panic proof by a zero-annotation sweep: for 347 of the 451 functions of pkg/yang and pkg/indent every implicit run-time check "
+   text=("Deductive no-panic proof by a zero-annotation sweep: for 353 of the 454 functions of pkg/yang and pkg/indent every implicit run-time check "
          "(nil dereference, index and slice bounds, write to a nil map, failed type assertion, division by zero, explicit panic) and every callee "
          "precondition is a discharged obligation under at most a non-nil receiver (contracts generated once, committed, never regenerated by the "
          "check), plus the hand-written safe contracts of the other properties; termination measures on pow10, Contains, ReadOnly, Namespace, RootNode, "
-         "dup, importErrors, Find's root walk. Bounded (labelled): 76 hostile inputs (cyclic typedefs/groupings/identities, augments of leaves, absent "
+         "dup, importErrors, Find's root walk. Callers must not hand ToEntry a typed-nil module; lock balance on every return. Bounded (labelled): 85 hostile inputs (cyclic typedefs/groupings/identities, augments of leaves, absent "
          "modules, garbage) each loaded, processed and read back in a child process under a time limit. Not decided: the reflection-driven builder, "
          "ToEntry, Type.resolve, ApplyDeviate and the lexer state machine as a whole (their functions stay outside the safe set), stack depth."),
    ref="8 (C01)"),
  "C11": dict(
-   text=("Deductive proof of the parts that are per-call contracts: appendIfNotIn keeps the list in place, adds the identity at most once and never "
+   text=("Deductive proof of the parts that are per-call contracts: the identity dictionary is keyed by <name of the module the identity belongs to>:<name> "
+         "(modulePrefixedName, newResolvedIdentity), findIdentityBase returns the dictionary entry under that key for a local base and under the name of "
+         "the module the DECLARING (sub)module imports under the prefix for a remote one, the order of a Values list is by name with ties broken by that "
+         "key; appendIfNotIn keeps the list in place, adds the identity at most once and never "
          "duplicates; addChildren returns the list unchanged for an identity that is already collected (the shortcut that ends the walk on a cycle) and "
          "preserves the well-formedness of every identity's value list. 'Exactly the transitive set' needs reachability, which is not first-order, and "
          "the recursive bookkeeping needs a typed allocation predicate the memory model lacks: that clause is a bounded stand-in (labelled): 60 random "
-         "derivation graphs over up to 3 modules with multiple bases, equal names and arbitrary prefixes, compared with an independently computed "
+         "derivation graphs over up to 3 modules and submodules with multiple bases, equal names, shared own prefixes and import prefixes that denote "
+         "different modules in different importers, compared with an independently computed "
          "closure, four runs each for order determinism, identityref leaves checked, undefined bases and cycles must be errors."),
    ref="8 (C11)"),
  "C05": dict(
    text=("Deductive proof that the comparison used to sort error lists is order-independent: nless equals the spec nl (numbers by value, a number before "
          "other text, text lexicographically), nl is a total preorder (antisymmetry, transitivity, reflexivity as machine-checked lemmas), "
          "sortedErrors.Less equals the field-wise order lessE for every pair of texts (loop invariant over the split fields), and lessE is irreflexive, "
-         "asymmetric and transitive (lemmas). The hyperproperty itself -- same outcome across runs and load orders -- is a bounded stand-in (labelled): "
+         "asymmetric and transitive (lemmas); the identity order comparator breaks ties by module name; Modules.add lets the bare name denote the greater "
+         "full name for every load order (one open finding, see C13). The hyperproperty itself -- same outcome across runs and load orders -- is a bounded stand-in (labelled): "
          "5 module sets with types, identities, augments, deviations and several errors, all load orders x 3 repetitions, exact comparison of the error "
          "list or of a complete rendering. Assumed: sort.Sort, strings.SplitN, strconv.Atoi. Not decided: errorSort's duplicate removal, the 37 map-range "
          "loops as commutation obligations."),
    ref="8 (C05)"),
 }
 
-NOT_REACHED = {}
+NOT_REACHED = {
+ "C02": "not applicable with the contracts within reach: the property is about string content (which bytes end up in a token, RFC 7950 indentation stripping) inside the lexer state functions, which communicate through a channel and function values and range over strings -- outside the go/ssa subset govc translates, and content equalities need a sequence theory the installed solvers do not decide reliably. The cursor functions the lexer is built on are proved under C16. DESIGN.md section 13.",
+ "C03": "not applicable with the contracts within reach: the statement-to-node mirroring is implemented by closures over reflect generated at init; reflection results are opaque to the memory model, so no contract can express that each substatement lands in its field. Only Modules.add's 'modules and submodules only' clause is proved (counted under C13). DESIGN.md section 13.",
+ "C06": "not reached: dup/merge freshness, re-parenting and no-aliasing frames are proved (counted under C04), but the uses arm of ToEntry (reflection loop) that carries the property has no discharged contract. DESIGN.md section 13.",
+ "C07": "not reached: merge's collision and stamping clauses are proved (C04/C12); Entry.Augment and the retry loop of Process have no discharged contract on the current tree. DESIGN.md section 13.",
+ "C08": "not reached: ApplyDeviate (215 implicit checks, many unknown calls) has no discharged contract; a known defect (deviate kinds kept in a map, written order lost) is described in DESIGN.md section 5. DESIGN.md section 13.",
+ "C09": "not reached: Type.resolve / Typedef.resolve (245 implicit checks, reflection-free but with seven unknown calls) have no discharged contract; two known defects (pattern append aliasing, YangType.Equal ignores Bit) are described in DESIGN.md section 5. DESIGN.md section 13.",
+ "C18": "not reached: the single-call 'failure leaves no trace' frames live on Type.resolve and Modules.Parse, which have no discharged contract; batch-vs-incremental equality is relational and outside this family. A known defect (YangType stored before a failing restriction is reported) is described in DESIGN.md section 5.",
+}
 
 def main():
     props = [json.loads(l) for l in open("/verif/properties.jsonl")]
